@@ -81,14 +81,24 @@ class IntersectionsMixin:
             slope34 = (d.y - c.y) / (d.x - c.x)
             y = slope34 * (x - c.x) + c.y
             p = Point(x, y)
-            i = Intersection(self, self.tOfPoint(p), other, other.tOfPoint(p))
+            i = Intersection(
+                self,
+                self.tOfPoint(p, its_on_the_line_i_swear=True),
+                other,
+                other.tOfPoint(p, its_on_the_line_i_swear=True),
+            )
             return [i]
         if isclose(c.x, d.x):
             x = c.x
             slope12 = (b.y - a.y) / (b.x - a.x)
             y = slope12 * (x - a.x) + a.y
             p = Point(x, y)
-            i = Intersection(self, self.tOfPoint(p), other, other.tOfPoint(p))
+            i = Intersection(
+                self,
+                self.tOfPoint(p, its_on_the_line_i_swear=True),
+                other,
+                other.tOfPoint(p, its_on_the_line_i_swear=True),
+            )
             return [i]
 
         slope12 = (b.y - a.y) / (b.x - a.x)
